@@ -77,6 +77,12 @@ type replayFile struct {
 func RunCheck(p *Prop, tier string, seed int64, verifDir string) int {
 	start := time.Now()
 	outDir := filepath.Join(verifDir, "out", p.ID)
+	evidencePath := filepath.Join(verifDir, "evidence", p.ID+".json")
+	if sfx := os.Getenv("VERIF_OUT_SUFFIX"); sfx != "" {
+		// development runs (tools/devcheck.sh) keep away from the registered check's files
+		outDir = filepath.Join(verifDir, "out", sfx, p.ID, "run")
+		evidencePath = filepath.Join(verifDir, "out", sfx, p.ID, "evidence.json")
+	}
 	os.RemoveAll(outDir)
 	os.MkdirAll(outDir, 0o755)
 	os.MkdirAll(filepath.Join(verifDir, "evidence"), 0o755)
@@ -241,7 +247,7 @@ func RunCheck(p *Prop, tier string, seed int64, verifDir string) int {
 		"violations":  len(unknownSeen),
 	}
 	eb, _ := json.MarshalIndent(ev, "", " ")
-	os.WriteFile(filepath.Join(verifDir, "evidence", p.ID+".json"), append(eb, '\n'), 0o644)
+	os.WriteFile(evidencePath, append(eb, '\n'), 0o644)
 
 	fmt.Printf("%s tier=%s seed=%d cases=%d evaluations=%d distinct_nontrivial=%d wall=%.1fs\n", p.ID, tier, seed, len(cases), evals, int64(len(distinct))+distinctN, time.Since(start).Seconds())
 	for _, k := range ckeys {
